@@ -23,9 +23,9 @@ ASSUMPTIONS = ['a goal is judged invalid only on a definite counter-model: free 
                'closed, function-free quantified sub-sentences whose bounded evaluation is inconclusive are decided by an '
                'independent guard-correct Z3 encoding (vf.hol3.Z3Oracle: nat binders relativised, truncated minus, total '
                'division); its unsat answers are trusted']
-REQUIRED = {'quick': {'z3_calls': 800, 'z3_accepted': 60, 'z3_countermodels_found': 300, 'sympy_calls': 400, 'sympy_accepted': 60,
+REQUIRED = {'quick': {'z3_calls': 800, 'z3_accepted': 60, 'z3_countermodels_found': 300, 'sympy_calls': 400, 'sympy_accepted': 60, 'sympy_memo_differentials': 200,
                       'check_z3_flag_true': 1},
-            'thorough': {'z3_calls': 15000, 'z3_accepted': 1000, 'z3_countermodels_found': 6000, 'sympy_calls': 8000,
+            'thorough': {'z3_calls': 15000, 'z3_accepted': 1000, 'z3_countermodels_found': 6000, 'sympy_calls': 8000, 'sympy_memo_differentials': 4000,
                          'sympy_accepted': 1000, 'check_z3_flag_true': 1}}
 SHARD_TIMEOUT = {'quick': 1200, 'thorough': 7200}
 
@@ -359,10 +359,12 @@ def sympy_goal(rng):
               bo('real_divide', N(1), x), npow(x, 2), bo('minus', N(2), npow(x, 2)), bo('plus', x, N(1)), rfun('sqrt', x),
               bo('real_divide', N(1), bo('minus', x, N(1))), rfun('abs', x), bo('minus', rfun('exp', x), N(1)),
               bo('real_divide', npow(x, 2), x), rpow(x, Fraction(1, 2)), bo('times', rfun('sqrt', N(2)), rfun('cos', x)),
-              bo('minus', x, npow(x, 2)), rfun('sin', x), rfun('log', bo('plus', x, N(2)))]
+              bo('minus', x, npow(x, 2)), rfun('sin', x), rfun('log', bo('plus', x, N(2))),
+              bo('times', x, bo('minus', N(1), x)), x, bo('minus', x, N(1)), bo('times', bo('plus', x, N(1)), bo('minus', x, N(1))),
+              bo('times', x, bo('plus', x, N(2))), bo('minus', npow(x, 2), N(4))]
     goal = A.rel(relname, REAL, rng.choice(bodies), N(rng.choice([0, 0, 1, -1, Fraction(1, 2)])))
-    if rng.random() < 0.15:
-        goal = neg(eq(rng.choice(bodies), N(rng.choice([0, 1]))))
+    if rng.random() < 0.3:
+        goal = neg(eq(rng.choice(bodies), N(rng.choice([0, 0, 1]))))
     return goal, (prem, kind, lo, hi)
 
 
@@ -416,6 +418,31 @@ def run_sympy_case(ctx, rng, goal, prem):
         ctx.count('sympy_points_unknown', unknown)
 
 
+def memo_differential(ctx, goal, prem):
+    """acceptance with the process-wide solveset memo as found must equal acceptance with an empty memo"""
+    from kernel import theory
+    from prover import sympywrapper
+
+    def accepted():
+        try:
+            theory.thy.check_proof(one_step('sympy', S.to_repo_term(goal), S.to_repo_term(prem[0])), check_level=0)
+            return True
+        except Exception:
+            return False
+    warm = accepted()
+    saved = sympywrapper.solveset_cache
+    sympywrapper.solveset_cache = dict()
+    try:
+        cold = accepted()
+    finally:
+        sympywrapper.solveset_cache = saved
+    ctx.count('sympy_memo_differentials')
+    if warm != cold:
+        ctx.violation('history:sympy-solveset-memo-changes-the-answer', 'goal %s under %s is %s with the memo left by earlier queries and %s with an empty memo' % (
+            S.tm_str(goal), S.tm_str(prem[0]), 'accepted' if warm else 'rejected', 'accepted' if cold else 'rejected'),
+            {'solver': 'sympy', 'goal': S.jsonable(goal), 'prem': S.jsonable(prem[0]), 'prem_info': list(prem[1:]), 'history': 'same goal on the interval of the other openness first'})
+
+
 def setup():
     import warnings
     warnings.simplefilter('ignore')
@@ -464,5 +491,17 @@ def run_shard(ctx, spec):
         for k in range(spec['count']):
             goal, prem = sympy_goal(rng)
             run_sympy_case(ctx, rng, goal, prem)
+            if prem is not None:
+                # W-HIST: the same goal on the interval with the same end points but the other openness, in both
+                # orders, and a differential against an empty solveset memo
+                other = 'real_open_interval' if prem[1] == 'real_closed_interval' else 'real_closed_interval'
+                x = ('var', 'x', REAL)
+                setT = ('tc', 'set', (REAL,))
+                prem2 = (app(c('member', S.funs(REAL, setT, B)), x, app(c(other, S.funs(REAL, REAL, setT)), A.num(REAL, prem[2]), A.num(REAL, prem[3]))),
+                         other, prem[2], prem[3])
+                run_sympy_case(ctx, rng, goal, prem2)
+                run_sympy_case(ctx, rng, goal, prem)
+                memo_differential(ctx, goal, prem)
+                memo_differential(ctx, goal, prem2)
             ctx.case(('sympy', goal, prem[0] if prem else None), nontrivial=S.size(goal) >= 7,
                      sample={'solver': 'sympy', 'goal': S.tm_str(goal)} if k < 2 and spec['i'] == 0 else None)
